@@ -28,7 +28,7 @@ func AcceptTLSConn(l net.Listener) (*tls.Conn, error) {
 	return tlsConn, nil
 }
 
-func dialTLS(hostport string, config *tls.Config) (*tls.Conn, Data, error) {
+func dialTLS(ctx context.Context, hostport string, config *tls.Config) (*tls.Conn, Data, error) {
 	config.NextProtos = []string{alpn}
 
 	_, _, err := net.SplitHostPort(hostport)
@@ -39,12 +39,20 @@ func dialTLS(hostport string, config *tls.Config) (*tls.Conn, Data, error) {
 		hostport = net.JoinHostPort(hostport, strconv.Itoa(ServerPortIP))
 	}
 
-	conn, err := tls.DialWithDialer(&net.Dialer{
-		Timeout: time.Second * 5,
-	}, "tcp", hostport, config)
+	// connecting and the handshake end with the caller's deadline at the latest
+	dialer := tls.Dialer{
+		NetDialer: &net.Dialer{
+			Timeout: time.Second * 5,
+		},
+		Config: config,
+	}
+	ctx, cancel := context.WithTimeout(ctx, time.Second*5)
+	defer cancel()
+	c, err := dialer.DialContext(ctx, "tcp", hostport)
 	if err != nil {
 		return nil, Data{}, err
 	}
+	conn := c.(*tls.Conn)
 
 	var data Data
 	data.Server, _, err = net.SplitHostPort(conn.RemoteAddr().String())
